@@ -463,7 +463,7 @@ theorem mpnGcdextS_dc_spec (hg : Nat → Nat → Nat → HM → StepRes) (R dcTh
     (hV0 : 0 < V) (hle : nlimbs V ≤ nlimbs U) (hdc : dcThr ≤ nlimbs V) (hR : nlimbs V - nlimbs V / 3 < R) :
     let r := mpnGcdextS hg dcThr U (nlimbs U) V (nlimbs V)
     mpnGcdextOk U V r.g r.S ∧ CofBound V r.g r.S ∧ r.gn = nlimbs r.g ∧ r.up = r.S.natAbs ∧ r.usize.natAbs = nlimbs r.up ∧
-      (r.usize < 0 ↔ r.S < 0) ∧ (HgMn hg → r.ok = true) := by
+      (r.usize < 0 ↔ r.S < 0) ∧ (HgMn hg R → r.ok = true) := by
   intro r
   have hnV := nlimbs_bounds V hV0
   have hn1 := nlimbs_pos hV0
@@ -496,7 +496,7 @@ theorem mpnGcdextS_dc_spec (hg : Nat → Nat → Nat → HM → StepRes) (R dcTh
             | .inr r => r
             | .inl s => dcFinish (nlimbs V + 1) s) →
       mpnGcdextOk U V r.g r.S ∧ CofBound V r.g r.S ∧ r.gn = nlimbs r.g ∧ r.up = r.S.natAbs ∧ r.usize.natAbs = nlimbs r.up ∧
-      (r.usize < 0 ↔ r.S < 0) ∧ (HgMn hg → r.ok = true) := by
+      (r.usize < 0 ↔ r.S < 0) ∧ (HgMn hg R → r.ok = true) := by
     intro A q r hU hA0 hAB hr
     have hl : LInv A V (nlimbs V) := ⟨hA0, hV0, hAB, hnV.1, Or.inr hnV.2, hn1⟩
     have d1 := dcFirst_spec hg R A V (nlimbs V) hok (by omega) (by omega) hl
@@ -521,7 +521,7 @@ theorem mpnGcdextS_dc_spec (hg : Nat → Nat → Nat → HM → StepRes) (R dcTh
       | inl s' =>
         rw [hd2] at d2 hr
         simp only at d2 hr
-        obtain ⟨e1, e2⟩ := dcFinish_spec A V (Nat.gcd A V) (nlimbs V) (HgMn hg) hnV.1 hV1 s' d2
+        obtain ⟨e1, e2⟩ := dcFinish_spec A V (Nat.gcd A V) (nlimbs V) (HgMn hg R) hnV.1 hV1 s' d2
         subst hr
         obtain ⟨c1, c2, c3, c4, c5, c6⟩ := conv A q _ hU e1
         exact ⟨c1, c2, c3, c4, c5, c6, e2⟩
